@@ -586,7 +586,8 @@ def confirm_timeout(patience):
 
 
 def give_up_on_loops():
-    """after two confirmed and six further non-returning calls, cyclic declarations are no longer run (noted in the evidence)"""
+    """after two confirmed and six further non-returning calls, cyclic and dangling declarations are no longer run
+    (counted in the evidence; the witnesses exist already)"""
     return TIMEOUTS['confirmed'] >= 2 and TIMEOUTS['faced'] >= 6
 
 
@@ -867,8 +868,8 @@ def level1(ctx, res, rng):
     for label, names, sf, consts, orders, samples in l1_graphs(ctx, rng):
         runs = []
         kind, _ = analyze(names, sf, consts)
-        if kind in ('cyclic', 'both') and give_up_on_loops():
-            dist['L1 cyclic graphs skipped after repeated non-termination'] = dist.get('L1 cyclic graphs skipped after repeated non-termination', 0) + 1
+        if kind != 'ok' and give_up_on_loops():
+            dist['L1 cyclic/dangling graphs skipped after repeated non-termination'] = dist.get('L1 cyclic/dangling graphs skipped after repeated non-termination', 0) + 1
             continue
         for order in orders:
             cfg = {'level': 'L1', 'symbols': order, 'sf': sf, 'consts': consts, 'samples': samples, 'tag': cfg_tag(names, sf)}
@@ -1210,8 +1211,8 @@ def level2(ctx, res, rng):
     dist = {}
     for g in range(n_cases):
         cfg = gen_l2(rng, 'l2/%d/%d' % (ctx['seed'], g))
-        if cfg['variant'] == 'cyclic' and give_up_on_loops():
-            dist['L2 cyclic skipped after repeated non-termination'] = dist.get('L2 cyclic skipped after repeated non-termination', 0) + 1
+        if cfg['variant'] != 'ok' and give_up_on_loops():
+            dist['L2 cyclic/dangling skipped after repeated non-termination'] = dist.get('L2 cyclic/dangling skipped after repeated non-termination', 0) + 1
             continue
         st, out, seen, calls, log = run_l2(cfg)
         res.oracle_evals += 1
